@@ -328,9 +328,10 @@ class PassThrough:
 # ------------------------------------------------------------------------------------------------
 
 class EnumDef:
-    def __init__(self, name, variants):
+    def __init__(self, name, variants, disabled_in=()):
         self.name = name
         self.variants = variants        # [(vname, explicit_disc or None)]
+        self.disabled_in = tuple(disabled_in)   # back ends for which the author wrote #[diplomat::attr(<backend>, disable)]
 
     def values(self):
         out, last = [], -1
@@ -341,9 +342,10 @@ class EnumDef:
 
 
 class StructDef:
-    def __init__(self, name, fields, out=False, user_repr=False):
+    def __init__(self, name, fields, out=False, user_repr=False, disabled_in=()):
         self.name, self.fields, self.out = name, fields, out   # fields: [(fname, T)]
         self.user_repr = user_repr                             # the bridge author wrote #[repr(C)] themselves
+        self.disabled_in = tuple(disabled_in)                  # #[diplomat::attr(<backend>, disable)] written on the type
 
     @property
     def borrowed(self):
@@ -397,6 +399,7 @@ class Module:
         for d in self.order:
             # the Kotlin back end insists on an `error` attribute on types used in the Err position
             kerr = "    #[diplomat::attr(kotlin, error)]\n" if d.name in err_types else ""
+            kerr += "".join("    #[diplomat::attr(%s, disable)]\n" % b for b in getattr(d, "disabled_in", ()))
             if isinstance(d, EnumDef):
                 vs_ = ", ".join("%s%s" % (n, " = %d" % v if v is not None else "") for n, v in d.variants)
                 out.append("%s    #[derive(PartialEq, Eq, Debug)]\n    pub enum %s { %s }" % (kerr, d.name, vs_))
@@ -699,7 +702,31 @@ def m0_results():
     return m
 
 
-M0 = [m0_core, m0_slices, m0_callbacks, m0_results]
+def m0_attrs():
+    """Backend-conditional `disable` on *types* that enabled methods and structs still use.  The tool is expected to
+    refuse such uses ("Found usage of disabled type"); whatever it does accept must still agree with the macro's ABI."""
+    m = Module("m0_attrs")
+    P = Prim
+    m.add(OpaqueDef("At"))
+    m.add(EnumDef("HidEn", [("P", None), ("Q", 5)], disabled_in=("c",)))
+    m.add(StructDef("Hid", [("a", P("u64")), ("b", P("u64"))], disabled_in=("c",)))
+    m.add(StructDef("OuterH", [("a", P("u8")), ("h", StructT("Hid")), ("b", P("u64"))]))
+    m.add(StructDef("Vis", [("a", P("u8")), ("b", P("u32"))]))
+    m.method("At", "res_hid", "ref", [], Res(StructT("Hid"), P("u8")))
+    m.method("At", "opt_hid", None, [("k", P("u8"))], Opt(StructT("Hid")))
+    m.method("At", "res_err_hid", None, [], Res(P("u8"), StructT("Hid")))
+    m.method("At", "plain_hid", None, [], StructT("Hid"))
+    m.method("At", "take_hid", "ref", [("h", StructT("Hid"))], P("u64"))
+    m.method("At", "outer", None, [("o", StructT("OuterH"))], StructT("OuterH"))
+    m.method("At", "opt_en", None, [], Opt(EnumT("HidEn")))
+    m.method("At", "res_en", None, [("k", P("i16"))], Res(P("u8"), EnumT("HidEn")))
+    m.method("At", "take_en", None, [("e", EnumT("HidEn"))], P("u8"))
+    m.method("At", "vis", None, [("v", StructT("Vis"))], StructT("Vis"))
+    m.method("At", "new", None, [], OpaqueBox("At"))
+    return m
+
+
+M0 = [m0_core, m0_slices, m0_callbacks, m0_results, m0_attrs]
 
 
 # ------------------------------------------------------------------------------------------------
